@@ -108,6 +108,103 @@ def fmtFtsOut : Fts.Out → String
   | .nall res => trimRight s!"nall {joinWith ";" (res.map fun x =>
       s!"{x.1}={joinWith "/" (x.2.map fun y => s!"{y.1}:{fmtNats y.2}")}")}"
 
+/-! `xj j=<json>`: the text `extract_json` gives for a JSON value (spaces travel as `+`, in and out);
+    `slots s=`: the storage slot of every row (relative to the slots in use when the case starts);
+    `docs s=`: the slots that have a document record in the index -/
+
+def takeStr : List Char → List Char → Option (List Char × List Char)
+  | acc, '"' :: rest => some (acc.reverse, rest)
+  | _, '\\' :: _ => none
+  | acc, c :: rest => takeStr (c :: acc) rest
+  | _, [] => none
+
+def takeDigits : List Char → List Char → List Char × List Char
+  | acc, c :: rest => if c.isDigit then takeDigits (c :: acc) rest else (acc.reverse, c :: rest)
+  | acc, [] => (acc.reverse, [])
+
+def pNumber (cs : List Char) : Option (Fts.Json × List Char) :=
+  let (neg, cs1) := match cs with
+    | '-' :: r => (true, r)
+    | _ => (false, cs)
+  let (ds, rest) := takeDigits [] cs1
+  if ds.isEmpty then none
+  else (String.ofList ds).toNat?.map fun k => (.num (if neg then -(k : Int) else (k : Int)), rest)
+
+mutual
+def pValue : Nat → List Char → Option (Fts.Json × List Char)
+  | 0, _ => none
+  | _ + 1, '"' :: rest => (takeStr [] rest).map fun x => (.str x.1, x.2)
+  | _ + 1, '[' :: ']' :: rest => some (.arr .nil, rest)
+  | f + 1, '[' :: rest => (pItems f rest).map fun x => (.arr x.1, x.2)
+  | _ + 1, '{' :: '}' :: rest => some (.obj .nil, rest)
+  | f + 1, '{' :: rest => (pFields f rest .nil).map fun x => (.obj x.1, x.2)
+  | _ + 1, 't' :: 'r' :: 'u' :: 'e' :: rest => some (.bool true, rest)
+  | _ + 1, 'f' :: 'a' :: 'l' :: 's' :: 'e' :: rest => some (.bool false, rest)
+  | _ + 1, 'n' :: 'u' :: 'l' :: 'l' :: rest => some (.null, rest)
+  | _ + 1, cs => pNumber cs
+def pItems : Nat → List Char → Option (Fts.JList × List Char)
+  | 0, _ => none
+  | f + 1, cs =>
+    match pValue f cs with
+    | some (v, ',' :: r) => (pItems f r).map fun x => (.cons v x.1, x.2)
+    | some (v, ']' :: r) => some (.cons v .nil, r)
+    | _ => none
+/-- fields are inserted in the order of the text, as `serde_json` fills its `BTreeMap` -/
+def pFields : Nat → List Char → Fts.JFields → Option (Fts.JFields × List Char)
+  | 0, _, _ => none
+  | f + 1, '"' :: cs, acc =>
+    match takeStr [] cs with
+    | some (k, ':' :: r) =>
+      match pValue f r with
+      | some (v, ',' :: r2) => pFields f r2 (Fts.JFields.insert k v acc)
+      | some (v, '}' :: r2) => some (Fts.JFields.insert k v acc, r2)
+      | _ => none
+    | _ => none
+  | _ + 1, _, _ => none
+end
+
+def parseJson (s : String) : Option Fts.Json :=
+  let cs := s.toList.map fun c => if c = '+' then ' ' else c
+  match pValue (cs.length + 1) cs with
+  | some (j, []) => some j
+  | _ => none
+
+def fmtText (cs : List Char) : String :=
+  trimRight s!"text {String.ofList (cs.map fun c => if c = ' ' then '+' else c)}"
+
+def insertSlotPair (x : Nat × Nat) : List (Nat × Nat) → List (Nat × Nat)
+  | [] => [x]
+  | h :: t => if x.1 ≤ h.1 then x :: h :: t else h :: insertSlotPair x t
+
+def dedupSorted : List Nat → List Nat
+  | a :: b :: t => if a = b then dedupSorted (b :: t) else a :: dedupSorted (b :: t)
+  | l => l
+
+/-- the observation-only operations of `eng=fts` that are not steps of the model -/
+def ftsProbe (st : Fts.State) (toks : List String) : Option String :=
+  match toks with
+  | "xj" :: rest =>
+    match (kv? rest "j").bind parseJson with
+    | some j => some (fmtText (Fts.extractJson j))
+    | none => some "bad-op"
+  | "slots" :: rest =>
+    match nat? rest "s" with
+    | none => some "bad-op"
+    | some si =>
+      match st.sites[si]? with
+      | none => some "skip"
+      | some s =>
+        let l := (s.rows.map fun r => (r.n, r.slot)).foldl (fun acc x => insertSlotPair x acc) []
+        some (trimRight s!"slots {joinWith "," (l.map fun x => s!"{x.1}:{x.2}")}")
+  | "docs" :: rest =>
+    match nat? rest "s" with
+    | none => some "bad-op"
+    | some si =>
+      match st.sites[si]? with
+      | none => some "skip"
+      | some s => some (trimRight s!"docs {fmtNats (dedupSorted (Fts.sortNat s.docs))}")
+  | _ => none
+
 def parseRows (s : String) : Option (List (Nat × Room × Ent)) :=
   (s.splitOn ",").mapM fun t =>
     match (t.splitOn ":").mapM String.toNat? with
@@ -194,7 +291,8 @@ def stepLine (ds : Option DState) (line : String) : Option DState × String :=
     let dFts : Fts.Defects :=
       { deleteLeavesIndex := Fts.Defects.asImplemented.deleteLeavesIndex && !fixed.contains "delete",
         ingestUnindexed := Fts.Defects.asImplemented.ingestUnindexed && !fixed.contains "ingest",
-        toggleIgnored := Fts.Defects.asImplemented.toggleIgnored && !fixed.contains "toggle" }
+        toggleIgnored := Fts.Defects.asImplemented.toggleIgnored && !fixed.contains "toggle",
+        toggleNoReindex := Fts.Defects.asImplemented.toggleNoReindex }
     match nat? rest "id", kv? rest "eng" with
     | some i, some "ev" => (some (.ev { nsites := n, st := init dEv n }), s!"case {i}")
     | some i, some "fts" => (some (.fts (Fts.init dFts n)), s!"case {i}")
@@ -203,11 +301,14 @@ def stepLine (ds : Option DState) (line : String) : Option DState × String :=
     match ds with
     | none => (none, "bad-op")
     | some (.fts st) =>
-      match parseFtsOp toks with
-      | none => (ds, "bad-op")
-      | some op =>
-        let r := Fts.step st op
-        (some (.fts r.1), fmtFtsOut r.2)
+      match ftsProbe st toks with
+      | some out => (ds, out)
+      | none =>
+        match parseFtsOp toks with
+        | none => (ds, "bad-op")
+        | some op =>
+          let r := Fts.step st op
+          (some (.fts r.1), fmtFtsOut r.2)
     | some (.ev d) =>
       match parseOp toks with
       | none => (ds, "bad-op")
